@@ -62,6 +62,16 @@ def template(kind, rr):
     y = Q.QDense(3, kernel_quantizer=w(), bias_quantizer=bq(), activation=a(), name="d1")(i)
     y = Q.QScaleShift(weight_quantizer=w(), bias_quantizer=bq(), name="ss")(y)
     y = Q.QDense(2, kernel_quantizer=w(), bias_quantizer=bq(), name="d2")(y)
+  elif kind == "adaptive":
+    i = keras.Input((3,))
+    y = Q.QDense(3, kernel_quantizer=w(), bias_quantizer=bq(), name="d1")(i)
+    if rr.random() < 0.5:
+      y = Q.QAdaptiveActivation("quantized_relu", rr.choice([4, 6]), relu_neg_slope=rr.choice([0.0, 0.25]), relu_upper_bound=rr.choice([None, 0.5, 2.0]),
+                                po2_rounding=rr.choice([False, True]), per_channel=rr.choice([False, True]), name="qa")(y)
+    else:
+      y = Q.QAdaptiveActivation("quantized_bits", rr.choice([4, 8]), symmetric=rr.choice([True, False]), po2_rounding=rr.choice([False, True]),
+                                per_channel=rr.choice([False, True]), ema_decay=rr.choice([0.9999, 0.9]), quantization_delay=rr.choice([0, 5]), name="qa")(y)
+    y = Q.QDense(2, kernel_quantizer=w(), bias_quantizer=bq(), name="d2")(y)
   else:
     raise ValueError(kind)
   return keras.Model(i, y)
@@ -240,7 +250,7 @@ def replay(body):
 
 def run(tier, seed):
   r = harness.Run(PROP, "translation_validation", tier, seed)
-  kinds = ["conv", "depthsep", "conv1d", "dense"]
+  kinds = ["conv", "depthsep", "conv1d", "dense", "adaptive"]
   n_per = 2 if tier == "quick" else 12
   idx = 0
   for k in kinds:
@@ -257,8 +267,8 @@ def run(tier, seed):
                disagreements_checked=sum(1 for o in obls if o.result is not None and o.result.verdict == "sat"))
   r.functions = ["utils.quantized_model_from_json", "utils.clone_model", "utils.load_qmodel", "utils._add_supported_quantized_objects",
                  "get_config/from_config of QDense, QConv1D/2D, QDepthwiseConv2D, QSeparableConv1D/2D, QAveragePooling2D, QGlobalAveragePooling2D, "
-                 "QScaleShift, QActivation and of the quantizers inside them", "Clip / QInitializer configs"]
-  r.bounds = ["%d generated models (4 templates x %d seeded quantizer assignments from a pool of %d weight / %d activation / %d bias quantizer "
+                 "QScaleShift, QActivation, QAdaptiveActivation and of the quantizers inside them", "Clip / QInitializer configs"]
+  r.bounds = ["%d generated models (5 templates x %d seeded quantizer assignments from a pool of %d weight / %d activation / %d bias quantizer "
               "configurations) x 3 routes" % (len(r.configs), n_per, len(WEIGHT_Q), len(ACT_Q), len(BIAS_Q)),
               "routes are executed concretely (success, topology, reported quantizers, restored weights and eager predictions on one batch are "
               "compared); then every layer pair is traced with symbolic input and weights and proved equal for all values",
